@@ -185,6 +185,23 @@ def run(ctx):
         probe('StabilizerState.copy', lambda: (impl.ops_of(impl.state(rows, r).copy()), r), lambda: (t_ops(tstate(rows, r).copy()), int(tstate(rows, r).copy().r)), rows)
         probe('StabilizerState.expect(PauliList)', lambda: [int(v) for v in impl.state(rows, r).expect(impl.plist(obs, n))],
               lambda: [ival(v) for v in tstate(rows, r).expect(tlist(obs, n)).tolist()], (rows, r, obs))
+        # overlap Tr(rho sigma) of a pure rho with a state sigma of any rank (deterministic: no coins are drawn)
+        rows_p, _r0 = G.rand_tableau(rng, n, 0)
+        rows_s, r_s = (rows, r) if rng.random() < 0.6 else (rows_p, rng.randrange(n + 1))
+
+        def overlap_explained(a_, b_):
+            # the recorded divergence of the torch projection-trace kernel lives in its determined branch (an observable that is
+            # already, up to sign, a stabilizer): is that branch taken at all in this chain?
+            cur = list(rows_p[0:n])
+            for s_ in rows_s[r_s:n]:
+                k_, d_, new_ = O.measure_spec(cur, n, s_, random_out=0)
+                if k_ == 'determined':
+                    return 'determined-branch-in-torch-projection-trace'
+                cur = new_
+            return ''
+        probe('StabilizerState.expect(StabilizerState)', lambda: float(impl.state(rows_p, 0).expect(impl.state(rows_s, r_s))),
+              lambda: float(tstate(rows_p, 0).expect(tstate(rows_s, r_s))), (rows_p, rows_s, r_s), cmp=lambda a_, b_: abs(a_ - b_) < 1e-6,
+              when_pred=overlap_explained)
         terms = [((o[0], (o[1] + rng.randrange(4)) % 4), complex(rng.choice([1, -1, 2, 0.5]), rng.choice([0, 1, -0.5]))) for o in obs]
         probe('StabilizerState.expect(PauliPolynomial)', lambda: complex(impl.state(rows, r).expect(impl.poly(terms))),
               lambda: complex(tstate(rows, r).expect(tpoly(terms))), (rows, r, terms), cmp=lambda a, b: abs(a - b) < 1e-5)
